@@ -496,8 +496,18 @@ func mapFilledOnlyUnderSelected(fn *ssa.Function, m ssa.Value, depth int) bool {
 				switch r := ref.(type) {
 				case *ssa.MapUpdate, *ssa.Lookup, *ssa.Range, *ssa.Return, *ssa.DebugRef, *ssa.Phi, *ssa.Store:
 				case *ssa.Call:
-					if b, ok := r.Call.Value.(*ssa.Builtin); !ok || (b.Name() != "len" && b.Name() != "delete") {
+					if b, ok := r.Call.Value.(*ssa.Builtin); ok && (b.Name() == "len" || b.Name() == "delete") {
+						continue
+					}
+					// handed to a first-party function that only reads it (copies it into a registry, say)
+					h := r.Call.StaticCallee()
+					if h == nil || len(h.Blocks) == 0 {
 						return false
+					}
+					for i, a := range r.Call.Args {
+						if a == ssa.Value(x) && !mapParamOnlyRead(h, i, 0) {
+							return false
+						}
 					}
 				default:
 					return false
@@ -631,4 +641,41 @@ func releaseGuardedByHelper(c *Check, fn *ssa.Function, site ssa.CallInstruction
 		return "", true, true
 	}
 	return "", false, false
+}
+
+// mapParamOnlyRead: the i-th parameter of h (a map) is only ranged over, looked up or measured, never updated,
+// stored or handed on to something that could.
+func mapParamOnlyRead(h *ssa.Function, i int, depth int) bool {
+	if i >= len(h.Params) || depth > 2 {
+		return false
+	}
+	p := h.Params[i]
+	if p.Referrers() == nil {
+		return true
+	}
+	for _, ref := range *p.Referrers() {
+		switch r := ref.(type) {
+		case *ssa.Lookup, *ssa.Range, *ssa.DebugRef:
+		case *ssa.MapUpdate:
+			if r.Map == ssa.Value(p) {
+				return false
+			}
+		case *ssa.Call:
+			if b, ok := r.Call.Value.(*ssa.Builtin); ok && b.Name() == "len" {
+				continue
+			}
+			g := r.Call.StaticCallee()
+			if g == nil || len(g.Blocks) == 0 {
+				return false
+			}
+			for j, a := range r.Call.Args {
+				if a == ssa.Value(p) && !mapParamOnlyRead(g, j, depth+1) {
+					return false
+				}
+			}
+		default:
+			return false
+		}
+	}
+	return true
 }
